@@ -1,6 +1,8 @@
 //! C17 — external file blobs are content-addressed and follow their secret.
 //!
-//! (a) every history of file-secret operations up to a depth on one device
+//! (a) every history of file-secret operations (incl. attaching / removing
+//!     external-file fields, so that one secret owns several blobs) up to a
+//!     depth on one device
 //!     (file-system and sqlite client backends), executed on the real
 //!     `LocalAccount`; after every step the blobs on disc == the files
 //!     named by replaying the file event log == the reference model, every
@@ -25,7 +27,7 @@ use sos_protocol::AccountSync;
 use sos_server_storage::ServerAccountStorage;
 use sos_signer::ed25519::BinaryEd25519Signature;
 use sos_sync::StorageEventLogs;
-use sos_vault::secret::{FileContent, Secret, SecretMeta};
+use sos_vault::secret::{FileContent, Secret, SecretMeta, SecretRow};
 use std::collections::{BTreeMap, BTreeSet};
 use std::path::{Path, PathBuf};
 use std::time::{Duration, Instant};
@@ -63,6 +65,11 @@ enum Op {
     /// delete the second folder
     DeleteFolder,
     Archive { s: usize },
+    /// add an external-file field (attachment) to secret s: a file secret
+    /// then owns two blobs, a note secret one
+    Attach { s: usize },
+    /// update the secret without the field again
+    Detach { s: usize },
 }
 
 impl Op {
@@ -75,8 +82,20 @@ impl Op {
             Op::Delete { .. } => "delete_secret",
             Op::DeleteFolder => "delete_folder",
             Op::Archive { .. } => "archive",
+            Op::Attach { .. } => "attach_file_field",
+            Op::Detach { .. } => "remove_file_field",
         }
     }
+}
+
+/// An external-file field (attachment) of a secret.
+#[derive(Clone, Debug, Serialize, Deserialize)]
+struct MField {
+    /// identifier of the field row
+    id: String,
+    content: u8,
+    name: String,
+    verified: bool,
 }
 
 #[derive(Clone, Debug, Serialize, Deserialize)]
@@ -84,12 +103,29 @@ struct MSecret {
     /// 0 default folder, 1 second folder, 2 archive
     folder: u8,
     id: String,
+    /// true: a file secret (owns a blob of its own); false: a note secret
+    /// (owns only the blobs of its file fields)
+    is_file: bool,
     content: u8,
-    /// hex name of the blob
+    /// hex name of the secret's own blob (file secrets)
     name: String,
     alive: bool,
     /// the blob was decrypted and compared with the content
     verified: bool,
+    /// attached external-file fields, each owning one more blob
+    fields: Vec<MField>,
+}
+
+impl MSecret {
+    /// names of all blobs the secret owns
+    fn names(&self) -> Vec<&str> {
+        let mut v = vec![];
+        if self.is_file {
+            v.push(self.name.as_str());
+        }
+        v.extend(self.fields.iter().map(|f| f.name.as_str()));
+        v
+    }
 }
 
 #[derive(Clone, Debug, Serialize, Deserialize)]
@@ -103,12 +139,12 @@ struct Model {
 
 impl Model {
     fn expected(&self) -> BTreeSet<String> {
-        self.secrets.iter().filter(|s| s.alive).map(|s| format!("{}/{}/{}", self.folders[s.folder as usize], s.id, s.name)).collect()
+        self.secrets.iter().filter(|s| s.alive).flat_map(|s| s.names().into_iter().map(move |n| format!("{}/{}/{}", self.folders[s.folder as usize], s.id, n))).collect()
     }
 
     /// id-free projection (state identity)
     fn canon(&self) -> String {
-        let s: Vec<String> = self.secrets.iter().map(|s| if s.alive { format!("F{}c{}", s.folder, s.content) } else { "dead".to_string() }).collect();
+        let s: Vec<String> = self.secrets.iter().map(|s| if s.alive { format!("F{}{}{}", s.folder, if s.is_file { format!("c{}", s.content) } else { "note".to_string() }, s.fields.iter().map(|f| format!("+c{}", f.content)).collect::<String>()) } else { "dead".to_string() }).collect();
         format!("f1={};{}", self.f1_alive, s.join(","))
     }
 
@@ -127,14 +163,25 @@ impl Model {
             if !s.alive {
                 continue;
             }
-            v.push(Op::Replace { s: i });
-            v.push(Op::Meta { s: i });
-            if s.folder != 0 || self.f1_alive {
-                v.push(Op::Move { s: i });
+            // a note secret only matters while it owns a blob
+            if s.is_file || !s.fields.is_empty() {
+                if s.is_file {
+                    v.push(Op::Replace { s: i });
+                }
+                v.push(Op::Meta { s: i });
+                if s.folder != 0 || self.f1_alive {
+                    v.push(Op::Move { s: i });
+                }
+                v.push(Op::Delete { s: i });
+                if s.folder != 2 {
+                    v.push(Op::Archive { s: i });
+                }
             }
-            v.push(Op::Delete { s: i });
-            if s.folder != 2 {
-                v.push(Op::Archive { s: i });
+            // at most one file field per secret
+            if s.fields.is_empty() {
+                v.push(Op::Attach { s: i });
+            } else {
+                v.push(Op::Detach { s: i });
             }
         }
         if self.f1_alive {
@@ -146,12 +193,21 @@ impl Model {
     /// model transition (ids and names are patched by the caller)
     fn step(&mut self, op: &Op) {
         match op {
-            Op::Create { c, f } => self.secrets.push(MSecret { folder: *f, id: String::new(), content: *c, name: String::new(), alive: true, verified: false }),
+            Op::Create { c, f } => self.secrets.push(MSecret { folder: *f, id: String::new(), is_file: true, content: *c, name: String::new(), alive: true, verified: false, fields: vec![] }),
             Op::Replace { s } => {
+                // Account::update_file builds a fresh file secret from the
+                // path: the new secret has no fields
                 let x = &mut self.secrets[*s];
                 x.content = 1 - x.content;
                 x.verified = false;
+                x.fields.clear();
             }
+            Op::Attach { s } => {
+                let x = &mut self.secrets[*s];
+                let content = if x.is_file { 1 - x.content } else { 1 };
+                x.fields.push(MField { id: String::new(), content, name: String::new(), verified: false });
+            }
+            Op::Detach { s } => self.secrets[*s].fields.clear(),
             Op::Meta { .. } => {}
             Op::Move { s } => {
                 let x = &mut self.secrets[*s];
@@ -238,15 +294,24 @@ fn det_bytes(len: usize, seed: u64, tag: &str) -> Vec<u8> {
     out
 }
 
-async fn checksum_of<A>(acct: &A, id: &SecretId, folder: &VaultId) -> std::result::Result<String, String>
+/// Blob names a secret row refers to: its own external content (file
+/// secrets) and (field id, name) of every external-file field.
+async fn row_blobs<A>(acct: &A, id: &SecretId, folder: &VaultId) -> std::result::Result<(Option<String>, Vec<(String, String)>), String>
 where
     A: Account + Send + Sync,
 {
     let (row, _) = acct.read_secret(id, Some(folder)).await.map_err(|e| format!("read_secret: {}", e))?;
-    match row.secret() {
-        Secret::File { content: FileContent::External { checksum, .. }, .. } => Ok(hex::encode(checksum)),
-        _ => Err("not an external file secret".into()),
+    let own = match row.secret() {
+        Secret::File { content: FileContent::External { checksum, .. }, .. } => Some(hex::encode(checksum)),
+        _ => None,
+    };
+    let mut fields = vec![];
+    for f in row.secret().user_data().fields() {
+        if let Secret::File { content: FileContent::External { checksum, .. }, .. } = f.secret() {
+            fields.push((f.id().to_string(), hex::encode(checksum)));
+        }
     }
+    Ok((own, fields))
 }
 
 fn vid(s: &str) -> VaultId {
@@ -262,6 +327,7 @@ where
     A: Account + Send + Sync,
 {
     let opt = |f: &VaultId| AccessOptions { folder: Some(*f), ..Default::default() };
+    let mut new_field: Option<SecretId> = None;
     let r: std::result::Result<(Option<SecretId>, Option<VaultId>), String> = async {
         match op {
             Op::Create { c, f } => {
@@ -313,6 +379,28 @@ where
                 let r = acct.archive(&from, &sid(&x.id), Default::default()).await.map_err(|e| format!("archive: {}", e))?;
                 Ok((Some(r.id), Some(vid(&m.folders[2]))))
             }
+            Op::Attach { s } => {
+                let x = m.secrets[*s].clone();
+                let folder = vid(&m.folders[x.folder as usize]);
+                let (mut row, _) = acct.read_secret(&sid(&x.id), Some(&folder)).await.map_err(|e| format!("read_secret: {}", e))?;
+                let c = if x.is_file { 1 - x.content } else { 1 };
+                let fsecret: Secret = content[c as usize].clone().try_into().map_err(|e| format!("{}", e))?;
+                let fmeta = SecretMeta::new(format!("attachment-of-{}", s), fsecret.kind());
+                new_field = Some(SecretId::new_v4());
+                row.secret_mut().add_field(SecretRow::new(new_field.unwrap(), fmeta, fsecret));
+                let r = acct.update_secret(&sid(&x.id), row.meta().clone(), Some(row.secret().clone()), opt(&folder)).await.map_err(|e| format!("update_secret(attach): {}", e))?;
+                Ok((Some(r.id), Some(folder)))
+            }
+            Op::Detach { s } => {
+                let x = m.secrets[*s].clone();
+                let folder = vid(&m.folders[x.folder as usize]);
+                let (mut row, _) = acct.read_secret(&sid(&x.id), Some(&folder)).await.map_err(|e| format!("read_secret: {}", e))?;
+                for f in &x.fields {
+                    row.secret_mut().remove_field(&sid(&f.id));
+                }
+                let r = acct.update_secret(&sid(&x.id), row.meta().clone(), Some(row.secret().clone()), opt(&folder)).await.map_err(|e| format!("update_secret(detach): {}", e))?;
+                Ok((Some(r.id), Some(folder)))
+            }
         }
     }
     .await;
@@ -325,16 +413,39 @@ where
             m.step(op);
             let slot = match op {
                 Op::Create { .. } => Some(m.secrets.len() - 1),
-                Op::Replace { s } | Op::Meta { s } | Op::Move { s } | Op::Archive { s } => Some(*s),
+                Op::Replace { s } | Op::Meta { s } | Op::Move { s } | Op::Archive { s } | Op::Attach { s } | Op::Detach { s } => Some(*s),
                 _ => None,
             };
             if let (Some(slot), Some(id), Some(folder)) = (slot, id, folder) {
                 m.secrets[slot].id = id.to_string();
-                // the blob name is learnt from the secret row when the
+                // a blob name is learnt from the secret row when the
                 // content was (re)written; other operations must keep it
-                if matches!(op, Op::Create { .. } | Op::Replace { .. }) {
-                    match checksum_of(acct, &id, &folder).await {
-                        Ok(n) => m.secrets[slot].name = n,
+                if matches!(op, Op::Create { .. } | Op::Replace { .. } | Op::Attach { .. }) {
+                    match row_blobs(acct, &id, &folder).await {
+                        Ok((own, fields)) => {
+                            if matches!(op, Op::Attach { .. }) {
+                                let fid = new_field.map(|f| f.to_string()).unwrap_or_default();
+                                match fields.iter().find(|f| f.0 == fid) {
+                                    Some(f) => {
+                                        let mf = m.secrets[slot].fields.last_mut().expect("field");
+                                        mf.id = fid;
+                                        mf.name = f.1.clone();
+                                    }
+                                    None => {
+                                        m.known = false;
+                                        return Err("the attached field is not in the secret row".into());
+                                    }
+                                }
+                            } else {
+                                match own {
+                                    Some(n) => m.secrets[slot].name = n,
+                                    None => {
+                                        m.known = false;
+                                        return Err("not an external file secret".into());
+                                    }
+                                }
+                            }
+                        }
                         Err(e) => {
                             m.known = false;
                             return Err(e);
@@ -354,10 +465,14 @@ async fn build_tpl(base: &Path, backend: Backend, content: &[PathBuf; 2]) -> Res
     let default = dev.account.default_folder().await.ok_or_else(|| anyhow!("no default folder"))?;
     let archive = dev.account.archive_folder().await.ok_or_else(|| anyhow!("no archive folder"))?;
     let f1 = dev.account.create_folder(NewFolderOptions::new("folder-one".to_string())).await?.folder;
+    // a plain note secret in the second folder: the host of file fields
+    let (nm, ns) = vkit::gen::secret("note", 0, "host");
+    let note = dev.account.create_secret(nm, ns, AccessOptions { folder: Some(*f1.id()), ..Default::default() }).await?.id;
     let account_id = dev.account_id;
     dev.close().await;
     fsutil::copy_dir(&dir_e, &dir_p)?;
-    let model_e = Model { folders: [default.id().to_string(), f1.id().to_string(), archive.id().to_string()], f1_alive: true, secrets: vec![], known: true };
+    let host = MSecret { folder: 1, id: note.to_string(), is_file: false, content: 0, name: String::new(), alive: true, verified: true, fields: vec![] };
+    let model_e = Model { folders: [default.id().to_string(), f1.id().to_string(), archive.id().to_string()], f1_alive: true, secrets: vec![host], known: true };
     let mut model_p = model_e.clone();
     let mut dev = Dev::open(&dir_p, backend, account_id, vkit::acct::password()).await?;
     apply(&mut dev.account, &mut model_p, &Op::Create { c: 0, f: 0 }, content).await.map_err(|e| anyhow!("template: {}", e))?;
@@ -502,9 +617,20 @@ where
         check_store(prefix, who, after, suffix, &disk, log.as_ref().ok(), listed.as_ref().ok(), &expected, fails);
         // the secret rows name the blobs the model tracks
         for s in m.secrets.iter().filter(|s| s.alive) {
-            match checksum_of(acct, &sid(&s.id), &vid(&m.folders[s.folder as usize])).await {
-                Ok(n) if n == s.name => {}
-                Ok(n) => fails.push(format!("{}:secret_row_names_another_blob:after_{}", prefix, after), format!("the secret row's checksum ..{} is not the blob ..{} written for it", &n[52..], &s.name[52..]), json!({})),
+            match row_blobs(acct, &sid(&s.id), &vid(&m.folders[s.folder as usize])).await {
+                Ok((own, fields)) => {
+                    let want_own = if s.is_file { Some(s.name.clone()) } else { None };
+                    let mut got: Vec<String> = fields.iter().map(|f| f.1.clone()).collect();
+                    let mut want: Vec<String> = s.fields.iter().map(|f| f.name.clone()).collect();
+                    got.sort();
+                    want.sort();
+                    if own != want_own {
+                        fails.push(format!("{}:secret_row_names_another_blob:after_{}", prefix, after), format!("the secret row's checksum {:?} is not the blob {:?} written for it", own.map(|n| n[52..].to_string()), want_own.map(|n| n[52..].to_string())), json!({}));
+                    }
+                    if got != want {
+                        fails.push(format!("{}:secret_row_fields_name_other_blobs:after_{}", prefix, after), format!("the secret row has {} external-file field(s), the model {} (or their checksums differ)", got.len(), want.len()), json!({}));
+                    }
+                }
                 Err(e) => fails.push(format!("{}:file_secret_unreadable:after_{}", prefix, after), e, json!({})),
             }
         }
@@ -513,20 +639,42 @@ where
         check_store(prefix, who, after, "after_failed_operation", &disk, None, listed.as_ref().ok(), log, fails);
     }
     if decrypt && m.known {
-        for s in m.secrets.iter_mut().filter(|s| s.alive && !s.verified) {
-            let key = format!("{}/{}/{}", m.folders[s.folder as usize], s.id, s.name);
-            if !disk.blobs.contains(&key) {
+        // (slot, field index or None for the secret's own blob)
+        let mut todo: Vec<(usize, Option<usize>)> = vec![];
+        for (i, s) in m.secrets.iter().enumerate().filter(|(_, s)| s.alive) {
+            if s.is_file && !s.verified {
+                todo.push((i, None));
+            }
+            for (k, f) in s.fields.iter().enumerate() {
+                if !f.verified {
+                    todo.push((i, Some(k)));
+                }
+            }
+        }
+        let w = if who.is_empty() { String::new() } else { format!("{}_", who) };
+        for (i, k) in todo {
+            let s = &m.secrets[i];
+            let (bname, content) = match k {
+                None => (s.name.clone(), s.content),
+                Some(k) => (s.fields[k].name.clone(), s.fields[k].content),
+            };
+            let (folder, secret) = (vid(&m.folders[s.folder as usize]), sid(&s.id));
+            if !disk.blobs.contains(&format!("{}/{}/{}", folder, secret, bname)) {
                 continue;
             }
             cnt.decrypts += 1;
-            let name: ExternalFileName = s.name.parse().expect("name");
+            let name: ExternalFileName = bname.parse().expect("name");
             let t0 = Instant::now();
-            let dl = robust_download(acct, &vid(&m.folders[s.folder as usize]), &sid(&s.id), &name, cnt).await;
+            let dl = robust_download(acct, &folder, &secret, &name, cnt).await;
             *cnt.t_ms.entry("decrypt".into()).or_default() += t0.elapsed().as_millis() as u64;
+            let what = if k.is_some() { "attached file" } else { "file" };
             match dl {
-                Ok(b) if b == content_bytes[s.content as usize] => s.verified = true,
-                Ok(b) => fails.push(format!("{}:{}decrypt_mismatch:after_{}", prefix, if who.is_empty() { String::new() } else { format!("{}_", who) }, after), format!("decrypting the blob returns {} bytes that differ from the {} bytes stored", b.len(), content_bytes[s.content as usize].len()), json!({})),
-                Err(e) => fails.push(format!("{}:{}decrypt_failed:after_{}", prefix, if who.is_empty() { String::new() } else { format!("{}_", who) }, after), format!("download_file: {}", e), json!({})),
+                Ok(b) if b == content_bytes[content as usize] => match k {
+                    None => m.secrets[i].verified = true,
+                    Some(k) => m.secrets[i].fields[k].verified = true,
+                },
+                Ok(b) => fails.push(format!("{}:{}decrypt_mismatch:after_{}", prefix, w, after), format!("decrypting the blob of the {} returns {} bytes that differ from the {} bytes stored", what, b.len(), content_bytes[content as usize].len()), json!({})),
+                Err(e) => fails.push(format!("{}:{}decrypt_failed:after_{}", prefix, w, after), format!("download_file ({}): {}", what, e), json!({})),
             }
         }
     }
@@ -957,16 +1105,23 @@ async fn run_transfer_late(sh: &Shared, backend: Backend, path: &[Op], wd: &Path
 async fn decrypt_on(dev2: &NetworkAccount, m: &Model, cbytes: &[Vec<u8>; 2], path: &[Op], fails: &mut Fails, cnt: &mut Counters) {
     let paths = dev2.paths();
     for s in m.secrets.iter().filter(|s| s.alive) {
-        let name: ExternalFileName = s.name.parse().expect("name");
-        let p = paths.into_file_path_parts(&vid(&m.folders[s.folder as usize]), &sid(&s.id), &name);
-        if !p.exists() {
-            continue;
+        let mut blobs: Vec<(String, u8)> = vec![];
+        if s.is_file {
+            blobs.push((s.name.clone(), s.content));
         }
-        cnt.decrypts += 1;
-        match robust_download(dev2, &vid(&m.folders[s.folder as usize]), &sid(&s.id), &name, cnt).await {
-            Ok(b) if b == cbytes[s.content as usize] => {}
-            Ok(_) => fails.push("transfer:device2_decrypt_mismatch".into(), "the second device decrypts a transferred blob to other bytes than the original file".into(), json!({"history": path})),
-            Err(e) => fails.push("transfer:device2_decrypt_failed".into(), format!("download_file on the second device: {}", e), json!({"history": path})),
+        blobs.extend(s.fields.iter().map(|f| (f.name.clone(), f.content)));
+        for (bname, content) in blobs {
+            let name: ExternalFileName = bname.parse().expect("name");
+            let p = paths.into_file_path_parts(&vid(&m.folders[s.folder as usize]), &sid(&s.id), &name);
+            if !p.exists() {
+                continue;
+            }
+            cnt.decrypts += 1;
+            match robust_download(dev2, &vid(&m.folders[s.folder as usize]), &sid(&s.id), &name, cnt).await {
+                Ok(b) if b == cbytes[content as usize] => {}
+                Ok(_) => fails.push("transfer:device2_decrypt_mismatch".into(), "the second device decrypts a transferred blob to other bytes than the original file".into(), json!({"history": path})),
+                Err(e) => fails.push("transfer:device2_decrypt_failed".into(), format!("download_file on the second device: {}", e), json!({"history": path})),
+            }
         }
     }
 }
@@ -1269,21 +1424,43 @@ async fn run_upload(sh: &Shared, part: usize, parts: usize, tier: Tier, wd: &Pat
 // ---------------------------------------------------------------------
 
 fn symbolic_root(p: bool) -> Model {
-    let mut m = Model { folders: ["F0".into(), "F1".into(), "A".into()], f1_alive: true, secrets: vec![], known: true };
+    let host = MSecret { folder: 1, id: String::new(), is_file: false, content: 0, name: String::new(), alive: true, verified: true, fields: vec![] };
+    let mut m = Model { folders: ["F0".into(), "F1".into(), "A".into()], f1_alive: true, secrets: vec![host], known: true };
     if p {
         m.step(&Op::Create { c: 0, f: 0 });
     }
     m
 }
 
+/// Histories of part (b): the maximal histories from the template account
+/// that contain at most one attach operation; in the quick tier those whose
+/// last operation is not a create (a create as last step only repeats the
+/// upload / download every history already begins with; the states after
+/// it are covered by part (a) and by the thorough tier).
+fn transfer_paths(tier: Tier) -> Vec<Vec<Op>> {
+    let mut paths = enumerate_paths(&symbolic_root(false), depth_b(tier), tier);
+    paths.retain(|p| p.iter().filter(|o| matches!(o, Op::Attach { .. })).count() <= 1);
+    if tier == Tier::Quick {
+        paths.retain(|p| !matches!(p.last(), Some(Op::Create { .. })));
+    }
+    paths
+}
+
 fn items(tier: Tier) -> (Vec<Item>, Vec<Vec<Op>>) {
     let mut v = vec![];
-    let paths = enumerate_paths(&symbolic_root(false), depth_b(tier), tier);
+    let mut paths = transfer_paths(tier);
+    let n_online = paths.len();
+    // offline-then-connected mode (thorough): only the final state is
+    // transferred, all depth 2 histories
+    if tier == Tier::Thorough {
+        paths.extend(enumerate_paths(&symbolic_root(false), 2, tier));
+    }
     // longest items first: sub-trees below the account that already holds
     // a file secret (thorough only, see `rule`)
     for root in ["P", "E"] {
         for backend in [Backend::Fs, Backend::Db] {
-            if tier == Tier::Quick && root == "P" {
+            // the deeper tree: thorough tier, file-system backend
+            if root == "P" && (tier == Tier::Quick || backend == Backend::Db) {
                 continue;
             }
             let n = symbolic_root(root == "P").enabled(tier).len();
@@ -1297,11 +1474,16 @@ fn items(tier: Tier) -> (Vec<Item>, Vec<Vec<Op>>) {
                 if tier == Tier::Quick && backend == Backend::Db {
                     continue;
                 }
-                for i in 0..paths.len() {
-                    v.push(Item::Transfer { backend, path: i });
-                    if tier == Tier::Thorough {
-                        v.push(Item::TransferLate { backend, path: i });
+                for i in 0..n_online {
+                    // the sqlite world skips the histories that end with
+                    // a create (see transfer_paths)
+                    if backend == Backend::Db && matches!(paths[i].last(), Some(Op::Create { .. })) {
+                        continue;
                     }
+                    v.push(Item::Transfer { backend, path: i });
+                }
+                for i in n_online..paths.len() {
+                    v.push(Item::TransferLate { backend, path: i });
                 }
             }
         }
@@ -1439,7 +1621,8 @@ fn main() {
     if args.rest.iter().any(|a| a == "--plan") {
         // size of the enumeration, nothing is executed
         let nodes = |root: bool| -> usize { (1..=depth_a(args.tier)).map(|d| enumerate_paths(&symbolic_root(root), d, args.tier).len()).sum() };
-        println!("work items {}; part a histories per backend: from two folders {}, from two folders + one file secret {} (thorough tier only); part b maximal histories {} per backend", its.len(), nodes(false), nodes(true), paths.len());
+        let count = |f: &dyn Fn(&Item) -> bool| its.iter().filter(|i| f(i)).count();
+        println!("work items {}; part a histories per backend: from the template account {}, from the template account + one file secret {} (thorough tier only); part b histories: connected fs {}, connected sqlite {}, offline-then-connected {}", its.len(), nodes(false), nodes(true), count(&|i| matches!(i, Item::Transfer { backend: Backend::Fs, .. })), count(&|i| matches!(i, Item::Transfer { backend: Backend::Db, .. })), count(&|i| matches!(i, Item::TransferLate { .. })));
         std::process::exit(0);
     }
     let mut run = Run::new("C17", "model_checking", &args);
@@ -1524,7 +1707,7 @@ fn main() {
     cov.insert("traces_validated_against_impl".into(), json!(histories[0] + histories[1] + histories[2]));
     cov.insert("samples".into(), json!(all_samples));
     cov.insert("exhaustive".into(), json!(true));
-    cov.insert("rule".into(), json!(format!("(a) every history up to depth {da} over {{create file secret (6000-byte content in the default folder | 100-byte content in the second folder; the other combinations arise through replace and move), replace content (Account::update_file), update meta only, move to the other folder, delete secret, delete the second folder, archive}} x every live file secret, from the two-folder account{pb}, on the file-system and sqlite client backends, explored as a tree with directory snapshots; each file encryption / decryption costs about 1 s (age scrypt), hence the shallow depth. (b) every maximal history of depth {db} from the two-folder account through the real NetworkAccount (sync + file transfer queue) against an in-process server, second device = real NetworkAccount on a copy of the initial account that syncs after every step{late}. (c) a {blen}-byte real encrypted blob: every single-byte alteration ({vals} per position), truncation at every length, empty, 3 extended bodies, 2 wrong names, connection closed midway at {ab} length, repeated upload; each followed by a correct upload and a download. A state is the id-free model state (folder liveness, per file secret folder and content) per backend", da = depth_a(args.tier), pb = args.tier.pick(String::new(), format!(" and from the two-folder account that already holds one file secret (i.e. depth {} histories that begin with a create)", depth_a(args.tier) + 1)), db = depth_b(args.tier), late = args.tier.pick("", "; and the same histories performed with no server configured, after which first the editing device and then the second device add the server"), blen = std::fs::metadata(&sh.upload_blob).map(|m| m.len()).unwrap_or(0), vals = args.tier.pick("3 values", "all 255 values"), ab = args.tier.pick("every 16th", "every"))));
+    cov.insert("rule".into(), json!(format!("The template account has a default folder, a second folder holding one plain note secret, and an archive. (a) every history up to depth {da} over {{create file secret (6000-byte content in the default folder | 100-byte content in the second folder; the other combinations arise through replace and move), replace content (Account::update_file; the fresh secret has no fields), update meta only, move to the other folder, delete secret, delete the second folder, archive, attach an external-file field made from a real file (to a file secret, which then owns two blobs, or to the note secret), remove the field again (update_secret without it)}} x every live secret (the note only takes part while it owns a blob, at most one file field per secret), from the template account{pb}, on the file-system and sqlite client backends, explored as a tree with directory snapshots; each file encryption / decryption costs about 1 s (age scrypt), hence the shallow depth. (b) maximal histories of depth {db} from the template account that contain at most one attach operation{bq}, through the real NetworkAccount (sync + file transfer queue) against an in-process server, second device = real NetworkAccount on a copy of the template that syncs after every step{late}. (c) a {blen}-byte real encrypted blob: every single-byte alteration ({vals} per position), truncation at every length, empty, 3 extended bodies, 2 wrong names, connection closed midway at {ab} length, repeated upload; each followed by a correct upload and a download. A state is the id-free model state (folder liveness; per secret: folder, kind, content, contents of its file fields) per backend", da = depth_a(args.tier), pb = args.tier.pick(String::new(), format!(" and, on the file-system backend, from the template account that already holds one file secret (i.e. depth {} histories that begin with a create)", depth_a(args.tier) + 1)), db = depth_b(args.tier), bq = args.tier.pick(" and do not end with a create (a create as last step only repeats the upload / download every history begins with), file-system devices and server", " (file-system world: all of them; sqlite world: those that do not end with a create)"), late = args.tier.pick("", "; and all depth 2 histories performed with no server configured, after which first the editing device and then the second device add the server (both worlds)"), blen = std::fs::metadata(&sh.upload_blob).map(|m| m.len()).unwrap_or(0), vals = args.tier.pick("3 values", "all 255 values"), ab = args.tier.pick("every 16th", "every"))));
     cov.insert("part_a_histories_one_device".into(), json!({"histories": histories[0], "depth": depth_a(args.tier), "backends": ["fs", "sqlite"], "work_items": its.iter().filter(|i| matches!(i, Item::Hist { .. })).count()}));
     cov.insert("part_b_transfer".into(), json!({"machinery": "real sos_net::NetworkAccount on both devices (add_server, automatic sync after every operation, its own file transfer queue); not the bare HttpClient file API", "maximal_histories": histories[1], "depth": depth_b(args.tier), "device_and_server_backends": args.tier.pick("fs", "fs and sqlite"), "second_device_syncs": cnt.syncs}));
     cov.insert("part_c_upload_inputs".into(), json!({"inputs": histories[2], "http_requests": cnt.requests, "wrong_bodies_refused": refused, "correct_uploads_accepted_afterwards": accepted, "retries_while_the_server_held_the_file_lock_of_an_aborted_upload": lock_waits, "responses": upload_status}));
